@@ -1957,6 +1957,70 @@ def has_union(c: Case) -> bool:
     return mentions(c.top, "union") or any(mentions(ft, "union") for k in c.sch.classes for _, ft in k["fields"])
 
 
+def kernel_format_table():
+    """{format: (sorted Coq origins of no_copy_collections | None, sorted pass-through leaf names)} parsed from coq/gen/K118d.v"""
+    import os
+    import re
+    try:
+        txt = open(os.path.join(vlib.COQ, "gen", "K118d.v")).read()
+    except OSError:
+        return None
+    leafname = {"LDate": "date", "LDecimal": "decimal", "LBytearray": "bytearray"}
+    out = {}
+    for f in ("orjson", "msgpack", "toml"):
+        m = re.search(r"Definition fmt_nocopy_%s : dialect := (None|Some \[([^\]]*)\])\." % f, txt)
+        l = re.search(r"Definition fmt_leafpass_%s \(k: leafk\) : bool := (.*)\." % f, txt)
+        if not m or not l:
+            return None
+        nc = None if m.group(1) == "None" else sorted(x.strip() for x in m.group(2).split(";") if x.strip())
+        body = l.group(1)
+        lp = sorted(leafname.values()) if body == "true" else sorted(leafname[x] for x in re.findall(r"L[A-Za-z]+", body))
+        out[f] = (nc, lp)
+    return out
+
+
+def theorems_retry(ctx, target_vo: str, names, kernels=None):
+    """ctx.theorems, except that a build which died WITHOUT a Coq error (coqc killed by the OOM killer, make timed out on
+    a loaded machine) is repeated: only a file Coq rejected, a failed kernel translation, or three such deaths in a row fail
+    the obligations"""
+    import time
+    v = target_vo[:-1] if target_vo.endswith(".vo") else target_vo
+    br = None
+    for attempt in range(3):
+        br = ctx.build([target_vo], force=[v], timeout=1800)
+        if br.ok or br.failed_file is not None:
+            break
+        ctx.hist("infrastructure", f"build of {target_vo} died without a Coq error - repeated")
+        time.sleep(20 * (attempt + 1))
+    kr = ctx.kernel_report
+    kfail = [k for k in (kernels or []) if k in kr and not kr[k]["ok"]]
+    for n in names:
+        if br.ok and not kfail:
+            ctx.obligation(n, True, "accepted by coqc")
+        else:
+            why = br.error or ""
+            if kfail:
+                why = "translator failed closed for " + ",".join(f"{k}: {kr[k]['error']}" for k in kfail) + " | " + why
+            ctx.obligation(n, False, why)
+    if not br.ok or kfail:
+        ctx.not_shown(f"theorems of {target_vo}", (br.error or "") + (" kernels: " + str(kfail) if kfail else ""))
+    return br
+
+
+def bad_idx_retry(ctx, *a, **kw):
+    """vlib.coq_bad_idx, repeated when an evaluation died without a Coq error (killed coqc: empty / truncated output)"""
+    import time
+    bad, log = None, ""
+    for attempt in range(3):
+        bad, log = vlib.coq_bad_idx(*a, **kw)
+        if bad is not None or "Error:" in (log or ""):
+            break
+        if ctx is not None:
+            ctx.hist("infrastructure", "case evaluation died without a Coq error - repeated")
+        time.sleep(20 * (attempt + 1))
+    return bad, log
+
+
 RUN_TAG = [""]     # case files of this run: unique per process, so that two runs in one worktree never share a file
 
 
@@ -1965,7 +2029,7 @@ def coq_flag(name, terms, fun):
     if not terms:
         return []
     name = name + RUN_TAG[0]
-    idx, log = vlib.coq_bad_idx(name, "Share ShareWire", "", "", terms, f"fun c => negb ({fun} c)", "pcase", shard=150,
+    idx, log = bad_idx_retry(None, name, "Share ShareWire", "", "", terms, f"fun c => negb ({fun} c)", "pcase", shard=150,
                                 needs=["theories/ShareWire.vo"])
     return idx
 
@@ -1979,7 +2043,7 @@ def correspondence(ctx, cases, side):
             terms.append(t)
             idx.append(i)
     okf = "ok_pack" if side == "pack" else "ok_unpack"
-    bad, log = vlib.coq_bad_idx(name, "Share ShareWire", "", "", terms, okf, "pcase", shard=150,
+    bad, log = bad_idx_retry(ctx, name, "Share ShareWire", "", "", terms, okf, "pcase", shard=150,
                                 needs=["theories/ShareWire.vo"])
     cname = f"sharing-model-vs-library ({side})"
     if bad is None:
@@ -2048,31 +2112,46 @@ def run0(ctx: vlib.Ctx):
                            "generated inputs; in the Coq model it holds by construction (pure functions)")
     # (T) the copy / by-reference / comprehension decision of the model is the function translated from
     # pack.py:pack_collection on this run (kernel K15)
-    ctx.theorems("props/C18_kernel.vo", ["C18_seq_decision_is_source", "C18_map_decision_is_source"], kernels=["K15"])
+    theorems_retry(ctx, "props/C18_kernel.vo", ["C18_seq_decision_is_source", "C18_map_decision_is_source"], kernels=["K15"])
     # (T) decode side: the container the model's unpackers build per origin is the template the if/elif chain of
     # unpack.py:unpack_collection selects (kernel K118a, translated on this run); no branch of that chain, of
     # unpack_tuple, unpack_named_tuple or unpack_typed_dict returns its input or a shallow copy of it
     ctx.trusted.append("K118a / K118b origin_facts: issubclass / `is` of each modelled origin class against the classes named in "
                        "unpack_collection, evaluated by CPython when the kernel is generated")
-    ctx.theorems("props/C18_unpack_kernel.vo", UNPACK_KERNEL_THEOREMS, kernels=["K118a"])
+    theorems_retry(ctx, "props/C18_unpack_kernel.vo", UNPACK_KERNEL_THEOREMS, kernels=["K118a"])
     # (T) encode side: which origins are submitted to K15's rule, which are always rebuilt (ChainMap, tuples, named
     # tuples, TypedDict) is the if/elif chain of pack.py:pack_collection (kernel K118b); K118b + K15 = Share.cp
-    ctx.theorems("props/C18_pack_kernel.vo", PACK_KERNEL_THEOREMS, kernels=["K15", "K118b"])
+    theorems_retry(ctx, "props/C18_pack_kernel.vo", PACK_KERNEL_THEOREMS, kernels=["K15", "K118b"])
     # (T) the effective no_copy_collections (Share.effN: call dialect > Config.dialect > default dialect > ()) is
     # CodeBuilder.get_dialect_or_config_option (K3) as called at every site that fills ValueSpec.no_copy_collections;
     # the sites that fill / read it (K118c): packer roots fill, pack_collection's rule reads, nothing on the decode side
-    ctx.theorems("props/C18_nocopy_threading.vo", ["C18_effective_nocopy_is_source", "C18_nocopy_sites"], kernels=["K3", "K118c"])
-    br = ctx.theorems("props/C18_share.vo", THEOREMS)
+    theorems_retry(ctx, "props/C18_nocopy_threading.vo", ["C18_effective_nocopy_is_source", "C18_nocopy_sites"], kernels=["K3", "K118c"])
+    # (T) the default dialects of the format mixins as read from the source (K118d) are what the README promises;
+    # the values the correspondence cases carry (read from the imported library) must be the kernel's
+    theorems_retry(ctx, "props/C18_format_dialects.vo", ["C18_format_dialects_as_documented", "C18_format_default_decisions"],
+                 kernels=["K118d"])
+    kd = kernel_format_table()
+    live = {f: fmt_settings(f) for f in ("orjson", "msgpack", "toml")}
+    live = {f: (sorted(ALL_ORIGINS[n][1] for n in (nc or [])) if nc is not None else None, sorted(lp)) for f, (nc, lp) in live.items()}
+    ctx.obligation("format dialects: imported library == kernel K118d", kd == live, json.dumps({"kernel": kd, "library": live})[:600])
+    if kd != live:
+        ctx.not_shown("format dialects read from the library differ from kernel K118d", json.dumps({"kernel": kd, "library": live})[:600])
+    br = theorems_retry(ctx, "props/C18_share.vo", THEOREMS)
     if not ctx.quick() and br.ok:
         # second opinion: the independent checker re-validates the compiled library and reports every axiom
-        rc, out, secs = vlib.run(["timeout", "900", "coqchk", "-silent", "-o", "-Q", "theories", "Verif", "-Q", "props",
-                                  "VerifProps", "VerifProps.C18_share"], cwd=vlib.COQ, timeout=930)
+        mods = ["VerifProps.C18_share", "VerifProps.C18_kernel", "VerifProps.C18_unpack_kernel", "VerifProps.C18_pack_kernel",
+                "VerifProps.C18_nocopy_threading", "VerifProps.C18_format_dialects"]
+        for attempt in range(3):
+            rc, out, secs = vlib.run(["timeout", "1500", "coqchk", "-silent", "-o", "-Q", "theories", "Verif", "-Q", "gen",
+                                      "VerifGen", "-Q", "props", "VerifProps"] + mods, cwd=vlib.COQ, timeout=1530)
+            if rc == 0 or "rror" in out:        # a checker that died without saying why (OOM kill) is run again
+                break
         import re as _re
         m = _re.search(r"\* Axioms:\s*(.*?)\n\s*\n", out, _re.S)
         axioms = " ".join(m.group(1).split()) if m else "?"
         ok = rc == 0 and axioms == "<none>"
-        ctx.obligation("coqchk -o VerifProps.C18_share", ok, f"rc={rc} Axioms: {axioms} ({secs:.0f}s)")
-        ctx.trusted.append(f"coqchk -o on props/C18_share.vo and its cone: Axioms: {axioms}")
+        ctx.obligation("coqchk -o VerifProps.C18_*", ok, f"rc={rc} Axioms: {axioms} ({secs:.0f}s) modules: {' '.join(mods)}")
+        ctx.trusted.append(f"coqchk -o on the six props/C18_*.vo and their cone (incl. the generated kernels): Axioms: {axioms}")
         if not ok:
             ctx.not_shown("coqchk", out[-1500:])
 
